@@ -8,6 +8,13 @@ import Flatland.Spec.C14
 namespace Flatland.C14.Proofs
 open Flatland.Path Flatland.C14.Spec
 
+instance {ε α : Type} [DecidableEq ε] [DecidableEq α] : DecidableEq (Except ε α) := fun a b =>
+  match a, b with
+  | .ok x, .ok y => if h : x = y then isTrue (by rw [h]) else isFalse (fun h' => h (Except.ok.inj h'))
+  | .error x, .error y => if h : x = y then isTrue (by rw [h]) else isFalse (fun h' => h (Except.error.inj h'))
+  | .ok _, .error _ => isFalse (fun h => by cases h)
+  | .error _, .ok _ => isFalse (fun h => by cases h)
+
 /-! ### sequencing in `Except Err` -/
 
 def andThen {α β : Type} (x : Except Err α) (k : α → Except Err β) : Except Err β :=
